@@ -281,6 +281,9 @@ def run(ctx: Context) -> None:
     from . import c02
     ctx.rule(c02.r7_lent_arrays, ("batch.params",))
     ctx.rule(c17.identity_keyed_cache)
+    # the space the user declared is the space the samplers see: bounds / precision are private copies (C04-R10)
+    from . import c04
+    ctx.rule(c04.r10_derived_sources_private)
 
 
 def r1_grid(ctx: Context, base: ClassInfo) -> None:
